@@ -3,27 +3,24 @@ From Coq Require Import List Arith Bool.
 From Cobald Require Import model.RT proofs.RTBase proofs.RTProofs.
 Import ListNotations.
 
-(* FULL statement (what the property asks): the caller sees the payload's own outcome, the very object:
-     step s (ExecEnd p o same) = Some s' -> p_st (pay s p) = PDone o /\ same = true.
-   It is false for the faithful model: asyncio re-creates TimeoutError while chaining futures
-   (known finding C10-asyncio-timeouterror-copied).  Proved: the _partial below (the only exception is
-   exactly that class) and the _refuted witness. *)
-Theorem C10_outcome_partial :
+(* the caller sees the payload's own outcome, the very object, in every flavour (full strength since /repo hands
+   exceptions over as plain results in AsyncioRunner.run_payload; before that asyncio re-created TimeoutError while
+   chaining futures and the stdlib future treated a falsy exception as "no exception": fixed findings
+   C10-asyncio-timeouterror-copied and C10-asyncio-falsy-exception-swallowed) *)
+Theorem C10_outcome :
   forall s p o same s',
     step s (ExecEnd p o same) = Some s' ->
-    p_st (pay s p) = PDone o /\ is_exec (p_origin (pay s p)) = true /\
-    (same = true \/ (p_flav (pay s p) = Aio /\ o = ORaiseExc aio_copied_exc)).
+    p_st (pay s p) = PDone o /\ is_exec (p_origin (pay s p)) = true /\ same = true.
 Proof. exact C10_outcome. Qed.
-Print Assumptions C10_outcome_partial.
+Print Assumptions C10_outcome.
 
-Theorem C10_outcome_refuted :
-  exists tr s, run init tr = Some s /\ In (ExecEnd 2 (ORaiseExc aio_copied_exc) false) tr.
-Proof.
-  exists [AcceptCall 0; RunningSet 0; ExecCall Outside 5 0 2 Aio; Start 2 Aio 1 1 0 true;
-          Finish 2 (ORaiseExc aio_copied_exc); ExecEnd 2 (ORaiseExc aio_copied_exc) false].
-  eexists. split; [vm_compute; reflexivity|]. cbn. auto 10.
-Qed.
-Print Assumptions C10_outcome_refuted.
+(* a look-alike is rejected: the model no longer admits the copy it once had to *)
+Example C10_copy_rejected :
+  run init [AcceptCall 0; RunningSet 0; ExecCall Outside 5 0 2 Aio; Start 2 Aio 1 1 0 true;
+            Finish 2 (ORaiseExc 11); ExecEnd 2 (ORaiseExc 11) false] = None
+  /\ run init [AcceptCall 0; RunningSet 0; ExecCall Outside 5 0 2 Aio; Start 2 Aio 1 1 0 true;
+               Finish 2 (ORaiseExc 11); ExecEnd 2 (ORaiseExc 11) true] <> None.
+Proof. vm_compute. split; [reflexivity|discriminate]. Qed.
 
 (* frame: neither the call, nor the payload's end (whatever it returns or raises), nor handing the
    result back touches any runner record (failure slots, phase), the guard, or any other payload *)
